@@ -686,14 +686,24 @@ sock_shutdown(nni_sock *sock, bool device)
 	sock->s_closing = true;
 
 	while ((l = nni_list_first(&sock->s_listeners)) != NULL) {
-		nni_listener_hold(l);
+		if (nni_listener_hold(l) != 0) {
+			// Somebody else is closing it right now and will take
+			// it off this list; do that here so we can move on.
+			// (Closing it without a hold would give up a
+			// reference that is not ours.)
+			nni_list_node_remove(&l->l_node);
+			continue;
+		}
 		nni_mtx_unlock(&sock->s_mx);
 		nni_listener_close(l);
 		nni_mtx_lock(&sock->s_mx);
 	}
 
 	while ((d = nni_list_first(&sock->s_dialers)) != NULL) {
-		nni_dialer_hold(d);
+		if (nni_dialer_hold(d) != 0) {
+			nni_list_node_remove(&d->d_node);
+			continue;
+		}
 		nni_mtx_unlock(&sock->s_mx);
 		nni_dialer_close(d);
 		nni_mtx_lock(&sock->s_mx);
